@@ -106,7 +106,8 @@ FORMULAS = {
     "C08": ["Gen.subBlock_is_code", "Gen.deliverCell_is_code", "Gen.settle_indus_is_code", "Gen.settle_house_is_code", "Gen.settle_same_rule",
             "Gen.presented_is_code"],
     "C11": ["Gen.presented_is_code", "Gen.settle_same_rule"],
-    "C07": ["Gen.capacity_is_code"],
+    "C13": ["Gen.convert_impact_is_code", "Gen.convert_house_is_code", "Gen.convert_same_rule", "Gen.trackerInit_damage_is_code"],
+    "C07": ["Gen.capacity_is_code", "Gen.trackerInit_damage_is_code"],
     "C09": ["Gen.linear_is_code", "Gen.convexe_is_code", "Gen.convexe_scaled_is_code", "Gen.cellwise_linear_is_code",
             "Gen.cellwise_convexe_is_code", "Gen.cellwise_convexe_scaled_is_code"],
     "C20": ["Gen.capNegative_is_code"],
@@ -123,6 +124,8 @@ FORMULA_MODULE = {
     "Gen.ordersFrom_is_code": "FormulasOrders", "Gen.gapOpen_is_code": "FormulasOrders", "Gen.goal_is_code": "FormulasOrders",
     "Gen.settle_indus_is_code": "FormulasLedger", "Gen.settle_house_is_code": "FormulasLedger", "Gen.settle_same_rule": "FormulasLedger",
     "Gen.presented_is_code": "FormulasLedger",
+    "Gen.convert_impact_is_code": "FormulasUnits", "Gen.convert_house_is_code": "FormulasUnits", "Gen.convert_same_rule": "FormulasUnits",
+    "Gen.trackerInit_damage_is_code": "FormulasUnits",
     "Gen.linear_is_code": "FormulasCurves", "Gen.convexe_is_code": "FormulasCurves", "Gen.convexe_scaled_is_code": "FormulasCurves",
     "Gen.cellwise_linear_is_code": "FormulasCurves", "Gen.cellwise_convexe_is_code": "FormulasCurves",
     "Gen.cellwise_convexe_scaled_is_code": "FormulasCurves",
